@@ -17,31 +17,31 @@ TABLES = {'C01': T_COMMON + T_DIV, 'C02': T_COMMON + T_FMA, 'C04': T_COMMON, 'C0
           'C10': T_COMMON, 'C11': T_COMMON, 'C17': T_COMMON, 'C19': T_DPD}
 
 PROPS = {
-    'C01': dict(streams=[('addsub', G.gen_addsub, 60000, 1500000), ('mul', G.gen_mul, 40000, 800000),
-                         ('div', G.gen_div, 40000, 800000), ('sqrt', G.gen_sqrt, 20000, 400000),
+    'C01': dict(streams=[('addsub', G.gen_addsub, 240000, 1500000), ('mul', G.gen_mul, 150000, 800000),
+                         ('div', G.gen_div, 150000, 800000), ('sqrt', G.gen_sqrt, 60000, 400000),
                          ('operators', G.gen_operators, 20000, 200000)]),
-    'C02': dict(streams=[('fma', G.gen_fma, 120000, 2500000), ('tiny_after', G.gen_tiny_after, 40000, 800000, dict(bin='ta'))], extra_props=['C02ta']),
+    'C02': dict(streams=[('fma', G.gen_fma, 250000, 2500000), ('tiny_after', G.gen_tiny_after, 40000, 800000, dict(bin='ta'))], extra_props=['C02ta']),
     'C03': dict(streams=[('cmp', G.gen_cmp, 400000, 6000000), ('ops', G.gen_ops, 40000, 600000)]),
-    'C04': dict(streams=[('parse', G.gen_parse, 160000, 2500000)]),
-    'C05': dict(streams=[('fmt', G.gen_fmt, 40000, 400000), ('roundtrip', G.gen_roundtrip, 40000, 600000), ('serde', G.gen_serde, 30000, 300000)]),
-    'C06': dict(streams=[('toint', G.gen_toint, 120000, 2500000), ('fromint', G.gen_fromint, 30000, 1000000),
+    'C04': dict(streams=[('parse', G.gen_parse, 300000, 2500000)]),
+    'C05': dict(streams=[('fmt', G.gen_fmt, 120000, 400000), ('roundtrip', G.gen_roundtrip, 120000, 600000), ('serde', G.gen_serde, 30000, 300000)]),
+    'C06': dict(streams=[('toint', G.gen_toint, 500000, 2500000), ('fromint', G.gen_fromint, 100000, 1000000),
                          ('roundtrip', G.gen_int_roundtrip, 30000, 500000)]),
-    'C07': dict(streams=[('frombin', G.gen_frombin, 60000, 1500000)]),
-    'C08': dict(streams=[('rint', G.gen_rint, 120000, 2000000)]),
-    'C09': dict(streams=[('quantize', G.gen_quantize, 100000, 2000000), ('queries', G.gen_quantum_queries, 40000, 400000),
+    'C07': dict(streams=[('frombin', G.gen_frombin, 60000, 400000)]),
+    'C08': dict(streams=[('rint', G.gen_rint, 400000, 2000000)]),
+    'C09': dict(streams=[('quantize', G.gen_quantize, 300000, 2000000), ('queries', G.gen_quantum_queries, 40000, 400000),
                          ('samequantum', G.gen_quantize_samequantum, 10000, 100000)]),
-    'C10': dict(streams=[('rem', G.gen_rem, 80000, 1500000)]),
-    'C11': dict(streams=[('scaleb', G.gen_scaleb, 100000, 2000000), ('logb', G.gen_logb, 40000, 400000)]),
-    'C12': dict(streams=[('nan', G.gen_nan, 120000, 1500000), ('invalid', G.gen_invalid_sources, 20000, 200000)]),
+    'C10': dict(streams=[('rem', G.gen_rem, 300000, 1500000)]),
+    'C11': dict(streams=[('scaleb', G.gen_scaleb, 300000, 2000000), ('logb', G.gen_logb, 40000, 400000)]),
+    'C12': dict(streams=[('nan', G.gen_nan, 300000, 1500000), ('invalid', G.gen_invalid_sources, 20000, 200000)]),
     'C13': dict(streams=[('class', G.gen_class, 60000, 600000), ('noncanon', G.gen_noncanon_ops, 80000, 1000000), ('consts', G.gen_consts, 5000, 50000)]),
     'C14': dict(streams=[('status', G.gen_all_ops_status, 240000, 3000000)], cross_entry=True),
     'C15': dict(streams=[('sweep', G.gen_c15, 400000, 6000000), ('strings', G.gen_parse, 100000, 1500000)], panic_only=True, api_registry=True, level='other',
                 explanation='partial: exploration of every public entry point under catch_unwind (debug-assertion and release builds) plus an API registry check; absence of panics in the Rust code is not proved (the model does not transcribe it)'),
-    'C16': dict(streams=[('minmax', G.gen_minmax, 120000, 2000000)]),
-    'C17': dict(streams=[('next', G.gen_next, 120000, 2000000)]),
-    'C18': dict(streams=[('total', G.gen_total, 150000, 3000000)]),
-    'C19': dict(streams=[('dpd', G.gen_dpd, 120000, 2000000)]),
-    'C20': dict(streams=[('ops', G.gen_ops, 60000, 1000000), ('hash', G.gen_hash, 60000, 1000000), ('hashslice', G.gen_hashslice, 20000, 300000)]),
+    'C16': dict(streams=[('minmax', G.gen_minmax, 300000, 2000000)]),
+    'C17': dict(streams=[('next', G.gen_next, 400000, 2000000)]),
+    'C18': dict(streams=[('total', G.gen_total, 400000, 3000000)]),
+    'C19': dict(streams=[('dpd', G.gen_dpd, 300000, 2000000)]),
+    'C20': dict(streams=[('ops', G.gen_ops, 150000, 1000000), ('hash', G.gen_hash, 150000, 1000000), ('hashslice', G.gen_hashslice, 20000, 300000)]),
 }
 
 for _k, _v in TABLES.items(): PROPS[_k]['tables'] = _v
@@ -63,5 +63,10 @@ LAYER_I = {'C13': ('A,C', ['bid128_is_signed', 'bid128_is_nan', 'bid128_is_inf',
            'C06': ('B', ['bid128_from_int32', 'bid128_from_uint32', 'bid128_from_int64', 'bid128_from_uint64']),
            'C18': ('D', ['bid128_total_order', 'bid128_total_order_mag']),
            'C11': ('D', ['bid128_scalbln']),
-           'C19': ('E', ['bid_to_dpd128', 'bid_dpd_to_bid128'])}
+           'C19': ('E', ['bid_to_dpd128', 'bid_dpd_to_bid128']),
+           'C03': ('G', ['bid128_quiet_greater', 'bid128_quiet_greater_equal', 'bid128_quiet_greater_unordered', 'bid128_quiet_less',
+                         'bid128_quiet_less_equal', 'bid128_quiet_less_unordered', 'bid128_quiet_not_greater', 'bid128_quiet_not_less',
+                         'bid128_quiet_ordered', 'bid128_quiet_unordered', 'bid128_signaling_greater', 'bid128_signaling_greater_equal',
+                         'bid128_signaling_greater_unordered', 'bid128_signaling_less', 'bid128_signaling_less_equal',
+                         'bid128_signaling_less_unordered', 'bid128_signaling_not_greater', 'bid128_signaling_not_less'])}
 for _k, _v in LAYER_I.items(): PROPS[_k]['layerI'] = _v
